@@ -95,7 +95,8 @@ def gen(rng):
             msgs = [gen_msg(rng, nobj) for _ in range(rng.range(1, 3))]
             hk = rng.below(3)
             holder = "now" if hk == 0 else ("keep" if hk == 1 else w)
-            ops.append(("strand", holder, msgs))
+            # the carrier may be CLOSED before it is let go (closing does not drain: the messages stay undelivered)
+            ops.append(("strand", holder, msgs, rng.chance(1, 4)))
             if holder != "now":
                 c = {"holder": holder, "msgs": [list(m) for m in msgs]}
                 carriers.append(c)
@@ -168,6 +169,8 @@ def render(scn):
                 fate = "(array/push kept m)"
             else:
                 fate = "(call %d [:hold m (backs %d)])" % (op[1], op[1])
+            if len(op) > 3 and op[3]:
+                gives += " (ev/chan-close m)"
             o.append("  ((fn [] (def m (ev/thread-chan 4)) %s %s nil))" % (gives, fate))
         elif op[0] == "release":
             o.append("  (array/clear kept)")
